@@ -89,6 +89,16 @@ CLAIMED = {
    note='As C02; eigenvalue statements follow from the matrix congruences (not formalised as spectra); numeric-vs-analytic kernel '
         'pair is exploration-level until the numerical kernels are translated.',
    technique='Lean 4 proof over regenerated models + pairwise implementation comparison', ref='4/C14'),
+ 'C15': dict(
+   text='Decided by proof only in its algebraic half: the dof map is injective and embeds the (m,n) amplitudes into every larger (m\',n\') '
+        'model, the REGENERATED entry functions have no m, n argument (so the smaller matrices are principal sub-matrices of the larger), and '
+        'min-max values over nested trial spaces are antitone for ANY Rayleigh quotient, any k (Lean: minmax_monotone, minmax_chain). That the '
+        'solvers return the min-max values is Courant-Fischer (assumed, not in Mathlib). The closed-form clause (never below / converging to the '
+        'double-sine buckling loads and frequencies) is a statement about the continuum problem and is NOT decided by proof: it is evaluated '
+        'numerically on the implementation (sub-matrix embedding, monotonicity of the lowest multipliers/frequencies under added terms, closed '
+        'forms with rotary inertia) as a test.',
+   note='PARTIAL: only the monotonicity half is a theorem; Courant-Fischer assumed; closed-form clause exploration-level (see DESIGN.md section 6).',
+   technique='Lean 4 proof (min-max inclusion, index embedding) over regenerated model + numeric evaluation of the continuum clause', ref='4/C15'),
  'C19': dict(
    text='Regenerated Lean models of fkAx/fkAy/fcA (plate, plate_w, cpanel); 14 theorems: each entry equals the by-parts form '
         '-beta*Int(dw_A/dflow w_B) - gamma*Int(w_A w_B) (gamma only in the cylindrical x-flow kernel) resp. -aeromu*Int(w_A w_B), on w only; '
